@@ -84,8 +84,10 @@ Eval(s) ==
       fl == StdFilters(R)
       used(j) == \E f \in 1..3 : s.flt[f] = j
       keys == KeyCols(s)
-      units(f) == UnitsInForce(s.flt[f], fl, R, s.rw, keys, s.F)
-      res(f) == Est(s.est[f], Eff(units(f), s.F), s.cols[f])
+      unitsF == [f \in 1..3 |-> UnitsInForce(s.flt[f], fl, R, s.rw, keys, s.F)]
+      units(f) == unitsF[f]
+      resF == [f \in 1..3 |-> Est(s.est[f], Eff(unitsF[f], s.F), s.cols[f])]
+      res(f) == resF[f]
   IN IF \E j \in {0, 1} : used(j) /\ FilterEmpty(fl[j + 1], R, s.rw, keys, s.F) THEN [st |-> "toofew"]
      ELSE IF R - Cardinality(s.F) < s.minsucc THEN [st |-> "nofunctions"]
      ELSE IF s.F = 1..R THEN [st |-> "allnan"]
@@ -109,4 +111,50 @@ EvalReduced(s) ==
   IN [f \in 1..3 |-> Est(r.est[f], units(f), r.cols[f])]
 
 SameRes(a, b) == a.st = b.st /\ (a.st = "val" => QEq(a.q, b.q))
+
+\* ======================= gradient evaluation on affine ensembles ===========
+\* Scenario record g: [V, mask, x, R, P, rw, ow, est, flt, a, b, minsucc, pms, merged, nanF, nanP]
+\*   a[r][f][v] integer slope, b[r][f] offset: realization r of function f is a[r][f].x + b[r][f]
+\*   nanF[r] in 0..3: column of the unperturbed evaluation of realization r carrying a NaN (0 = none)
+\*   nanP[r][p] likewise for perturbation p of realization r
+ColsAt(g, x) == [f \in 1..3 |-> [r \in 1..g.R |-> g.b[r][f] + SumTo([v \in 1..g.V |-> g.a[r][f][v] * x[v]], g.V)]]
+FailedF(g)  == {r \in 1..g.R : g.nanF[r] # 0}
+PertOK(g, r) == Cardinality({p \in 1..g.P : g.nanP[r][p] = 0})
+FailedG(g)  == FailedF(g) \cup {r \in 1..g.R : PertOK(g, r) < g.pms}
+FunScen(g)  == [R |-> g.R, rw |-> g.rw, ow |-> g.ow, est |-> g.est, flt |-> g.flt, cols |-> ColsAt(g, g.x),
+                F |-> FailedF(g), minsucc |-> g.minsucc]
+
+GradMeanQ(u, g, f, v) == <<SumTo([r \in 1..g.R |-> u[r] * g.a[r][f][v]], g.R), SumU(u)>>
+\* standard deviation: (gradient * sigma) is rational:  N/(N-1) (sum w^ c a - mu sum w^ a)
+GradStdSigmaQ(u, c, g, f, v) ==
+  LET W == SumU(u)   N == NPos(u)
+      Suca == SumTo([r \in 1..g.R |-> u[r] * c[r] * g.a[r][f][v]], g.R)
+      Suc  == Dot(u, c)
+      Sua  == SumTo([r \in 1..g.R |-> u[r] * g.a[r][f][v]], g.R)
+  IN <<N * (W * Suca - Suc * Sua), (N - 1) * W * W>>
+
+GradEst(kind, u, c, g, f, v) ==
+  IF ~g.mask[v] THEN [st |-> "fixed", q |-> <<0, 1>>]
+  ELSE IF SumU(u) = 0 THEN [st |-> "dontcare", q |-> <<0, 1>>]
+  ELSE IF kind = "mean" THEN [st |-> "val", q |-> GradMeanQ(u, g, f, v)]
+  ELSE IF NPos(u) < 2 THEN [st |-> "toofew", q |-> <<0, 1>>]
+  ELSE [st |-> "val", q |-> GradStdSigmaQ(u, c, g, f, v)]
+
+\* the whole call  calculate(x, functions + gradients)
+GradEval(g) ==
+  LET fs == FunScen(g)
+      fe == Eval(fs)
+      FG == FailedG(g)
+      fl == StdFilters(g.R)
+      keys == KeyCols(fs)
+      unitsF == [f \in 1..3 |-> Eff(UnitsInForce(g.flt[f], fl, g.R, g.rw, keys, fs.F), FG)]
+      geF == [f \in 1..3 |-> [v \in 1..g.V |-> GradEst(g.est[f], unitsF[f], fs.cols[f], g, f, v)]]
+      ge(f, v) == geF[f][v]
+  IN IF fe.st = "toofew" THEN [st |-> "toofew"]
+     ELSE IF g.R - Cardinality(FG) < g.minsucc THEN [st |-> "nogradients", fe |-> fe]
+     ELSE IF FG = 1..g.R THEN [st |-> "allnan", fe |-> fe]
+     ELSE IF \E f \in 1..3 : \E v \in 1..g.V : ge(f, v).st = "toofew" THEN [st |-> "toofew"]
+     ELSE [st |-> "ok", fe |-> fe, grad |-> geF,
+           contrib |-> [f \in 1..3 |-> {r \in 1..g.R : unitsF[f][r] > 0}],
+           units |-> unitsF]
 =============================================================================
